@@ -42,16 +42,10 @@ const struct TupleDecl__Decl *VCALL_Tuple_tuple_decl(const struct Tuple *t) { (v
 /* Value::Value(Collection*) : takes ownership of a new table */
 void _ZN4bloc5ValueC1EPNS_10CollectionE(struct Value *this, struct Collection *c)
 { this->_type._major = c ? c->_type._major : 0; this->_type._minor = c ? c->_type._minor : 0; this->_type._level = c ? c->_type._level : 1; this->_flags = c ? F_NOTNULL : 0; this->_value.p = c; }
-/* Value::Value(TabChar*), std::vector<char>(n, c, alloc), std::vector<char>() */
-void _ZN4bloc5ValueC1EPSt6vectorIcSaIcEE(struct Value *this, struct vec_char *v)
-{ this->_type._major = TABCHAR; this->_type._minor = 0; this->_type._level = 0; this->_flags = v ? F_NOTNULL : 0; this->_value.p = v; }
-void _ZNSt6vectorIcSaIcEEC1EmRKcRKS0_(struct vec_char *this, unsigned long n, const char *c, const void *a) { (void)c; (void)a; SZ(this) = n; CW(this, 0) = __g2c_nondet_ulong(); }
-void _ZNSt6vectorIcSaIcEEC1Ev(struct vec_char *this) { SZ(this) = 0; CW(this, 0) = 0; }
 void _ZNSt6vectorIN4bloc4TypeESaIS1_EEC2ERKS3_(void *this, const void *o) { CW(this, 0) = CW(o, 0); }
 void _ZNSt6vectorIN4bloc4TypeESaIS1_EEC2Ev(void *this) { CW(this, 0) = 0; }
 void _ZNSt6vectorIN4bloc4TypeESaIS1_EED2Ev(void *this) { (void)this; }
 void _ZNSt6vectorIN4bloc5ValueESaIS1_EED1Ev(struct vec_Value *this) { (void)this; }
-void _ZNSt6vectorIcSaIcEE9push_backEOc(struct vec_char *this, char *c) { (void)c; LIVE(this, 24, "std::vector<char>::push_back"); __CPROVER_assume(SZ(this) < MAXLEN); SZ(this) = SZ(this) + 1; CW(this, 0) = __g2c_nondet_ulong(); }
 #define RCV A1
 #define ARG A2
 #define COLL ((struct Collection *)O1->_value.p)
